@@ -6,6 +6,9 @@ PRESETS = ("default", "octet_rule", "hypervalent")
 BONDS = (("", 1), ("=", 2), ("#", 3))
 DOC_INDEX = ["[C]", "[Ring1]", "[Ring2]", "[Branch1]", "[=Branch1]", "[#Branch1]", "[Branch2]",
              "[=Branch2]", "[#Branch2]", "[O]", "[N]", "[=N]", "[=C]", "[#C]", "[S]", "[P]"]
+# elements no table of these histories lists: each is used for one probe only, so that its capacity has never been looked
+# up (and cached) before the call under observation
+FRESH_ELEMENTS = ["Sn", "Ge", "Pb", "Se", "Te", "As", "Sb", "Bi"]
 FIXED = set(DOC_INDEX) | {"[%sBranch%d]" % (b, i) for b in ("", "=", "#") for i in (1, 2, 3)} | \
     {"[%sRing%d]" % (b, i) for b in ("", "=") for i in (1, 2, 3)}
 
@@ -151,6 +154,25 @@ def apply_op(api, st, op):
             pass
     else:
         raise ValueError("unknown op %r" % (kind,))
+
+
+def probe_unlisted(api, st, step, derive, read_smiles, compare, decode=None):
+    """decode [E][#C] for an element E that no table lists and that was never translated before in this history: the
+    result must be what the documented derivation gives under the table last accepted ('?' entry for E)"""
+    toks = ["[%s]" % FRESH_ELEMENTS[step % len(FRESH_ELEMENTS)], "[#C]"]
+    try:
+        out = (decode or api.decoder)("".join(toks))
+    except api.DecoderError:
+        st.problem("decoder(%r) raised DecoderError under the table last accepted" % "".join(toks))
+        return
+    d = derive(toks, st.cur)
+    if d.error is not None:
+        st.problem("probe outside the grammar?")
+        return
+    out = str(out)
+    pb = compare(d, read_smiles(out)) if out else (None if not d.atoms else "empty output")
+    if pb:
+        st.problem("decoder(%r) = %r does not follow the table last accepted (unlisted element, '?' entry): %s" % ("".join(toks), out, pb))
 
 
 def observe(api, st, alphabet=True):
